@@ -89,7 +89,10 @@ class ConcatenatedObject(Concatenated, ObjectBase):
                     ).copy()
                     attributes["parent"] = self
                     self.workspace.create_from_concatenation(attributes)
-                elif not isinstance(child_data, ConcatenatedPropertyGroup):
+                elif (
+                    not isinstance(child_data, ConcatenatedPropertyGroup)
+                    and child_data not in self.children
+                ):
                     self.add_children([child_data])
 
     def get_entity(self, name: str | uuid.UUID) -> list[Entity | None]:
@@ -100,7 +103,8 @@ class ConcatenatedObject(Concatenated, ObjectBase):
         :param entity_type: Sub-select entities based on type.
         :return: A list of children Data objects
         """
-        if not any(child for child in self.children if isinstance(child, Data)):
+        loaded = {child.name for child in self.children if isinstance(child, Data)}
+        if not set(self.get_data_list()) <= loaded:
             self._fetch_concatenated_children()
 
         if isinstance(name, uuid.UUID):
